@@ -113,6 +113,8 @@ impl Cache for MemoryStore {
                 }
             }
         } else {
+            #[cfg(memcrs_verif)]
+            crate::verif::yield_point("fetch_cas");
             let cas = self.get_cas_id();
             record.header.cas = cas;
             record.header.timestamp = self.timer.timestamp();
